@@ -1162,6 +1162,10 @@ func runLock(ctx *Ctx) {
 		} else if r.Chance(1, 7) {
 			shutdownAt = -2 // Shutdown from inside an attempt's select evaluation (call kind lockctx-shut)
 		}
+		if ctx.R.Enough() {
+			ctx.R.Comment("several violations recorded already: the remaining cases are skipped")
+			break
+		}
 		runLockCase(ctx, cfg.lk, cfg.pv, r.Range(8, 45), r.Range(2, 4), maxFault, shutdownAt)
 	}
 }
